@@ -384,7 +384,7 @@ func genVP(d int) func(g *vlib.G) {
 		queries := queryLattice(d, side)
 		N := vpMaxPoints(g, d)
 		L := ipow(side, d)
-		seeds := vlib.Pick(g, 2, 4)
+		seeds := vlib.Pick(g, 2, 3)
 		if d == 4 {
 			seeds = vlib.Pick(g, 1, 2)
 		}
@@ -417,7 +417,7 @@ func genVP(d int) func(g *vlib.G) {
 			if d <= 2 {
 				tuples(L, n, emit)
 			} else {
-				multisets(L, n, func(ms []int) { orderings(ms, emit) })
+				multisets(L, n, func(ms []int) { orderings(ms, d < 4 || g.Thorough(), emit) })
 			}
 		}
 	}
